@@ -162,12 +162,15 @@ func referencedZaps(storeDir string) (map[string]bool, error) {
 // genC03Workload: 3-12 batches of index/delete ops; every indexed doc carries n=[seq].
 func genC03Workload(t *rapid.T, min, max int) [][]Op {
 	nb := rapid.IntRange(min, max).Draw(t, "nbatches")
+	// a small id pool makes later batches rewrite everything an earlier batch wrote (whole
+	// segments become obsolete while they are being persisted or merged)
+	pool := DocIDs[:rapid.SampledFrom([]int{2, 3, 8, 8}).Draw(t, "idpool")]
 	var bs [][]Op
 	for i := 1; i <= nb; i++ {
 		n := rapid.IntRange(1, 4).Draw(t, "nops")
 		var ops []Op
 		for j := 0; j < n; j++ {
-			id := rapid.SampledFrom(DocIDs).Draw(t, "id")
+			id := rapid.SampledFrom(pool).Draw(t, "id")
 			if rapid.IntRange(0, 3).Draw(t, "del") == 0 {
 				ops = append(ops, Op{Kind: OpDelete, ID: id})
 			} else {
@@ -211,6 +214,8 @@ type c03Crash struct {
 	K       int    `json:"k,omitempty"`
 	AfterUS int    `json:"after_us,omitempty"`
 	Garbage string `json:"garbage"` // leave | truncate | overwrite | delete
+	// Wait: hook points at which persister and merger wait for the writer's next batch
+	Wait []string `json:"wait,omitempty"`
 }
 
 // c03RunOne executes one (workload, config, crash plan) and checks the recovery oracle.
@@ -231,6 +236,12 @@ func c03RunOne(cfg Config, batches, extra [][]Op, crash c03Crash, garbageSeed in
 	case "wallclock":
 		killAfter = time.Duration(crash.AfterUS) * time.Microsecond
 		spec.Settle = true
+	}
+	if len(crash.Wait) > 0 {
+		if spec.Hook.Mode == "" {
+			spec.Hook.Mode = "count"
+		}
+		spec.Hook.WaitPoints, spec.Hook.WaitCapUS = crash.Wait, 5000
 	}
 	res, err := runChild(spec, killAfter, 90*time.Second)
 	if err != nil {
@@ -347,14 +358,14 @@ func truncLines(l []string) []string {
 	return out
 }
 
-func c03CountTable(cfg Config, batches [][]Op) (map[string]int, time.Duration, error) {
+func c03CountTable(cfg Config, batches [][]Op, wait []string) (map[string]int, time.Duration, error) {
 	dir, err := os.MkdirTemp(os.Getenv("VERIF_SCRATCH"), "c03count.")
 	if err != nil {
 		return nil, 0, err
 	}
 	defer os.RemoveAll(dir)
 	t0 := time.Now()
-	res, err := runChild(c03Spec{Mode: "count", Dir: filepath.Join(dir, "idx"), Cfg: cfg, Batches: batches, FirstID: 1, Hook: HookPlan{Mode: "count"}}, 0, 90*time.Second)
+	res, err := runChild(c03Spec{Mode: "count", Dir: filepath.Join(dir, "idx"), Cfg: cfg, Batches: batches, FirstID: 1, Hook: HookPlan{Mode: "count", WaitPoints: wait, WaitCapUS: 5000}}, 0, 90*time.Second)
 	if err != nil {
 		return nil, 0, err
 	}
@@ -378,6 +389,8 @@ func TestC03Crash(t *testing.T) {
 	ev.SetRule("rapid draws (workload of 3-12 batches over 8 ids, each batch stamping seq=i in an internal key and n=i on every document it writes; scorch disk config: safe/unsafe batch, persister workers/in-memory merge size, merge plan options, snapshots to keep). A dry run in count mode gives the occurrence table of the 26 instrumented points (batch introduction, introducer swaps, persist, in-memory merge, file merge, purge, zap removal); " +
 		"quick: per workload 6 crash plans = (point,k) drawn over points then occurrences, wall-clock SIGKILL at a drawn instant, or clean Close; thorough: every (point,k) of the table is executed (exhaustive per workload) plus wall-clock kills. After the kill every *.zap not named by a snapshot in the surviving root.bolt is left/truncated/overwritten/deleted. " +
 		"The workload runs in a child process (SUBMIT/ACK/PERSISTED on an unbuffered pipe); a second child reopens and dumps. Oracle: reopened state == model(prefix p) for exactly one p (internal key seq) with lastAck (safe) / last persisted callback (unsafe) <= p <= lastSubmit, no partial batch; then 3 more batches, clean Close, reopen == model again; " +
+		"in half of the workloads persister and merger wait at 1-4 drawn window points for the writer's next batch (5 ms cap); workloads use an id pool of 2, 3 or 8 ids; " +
+		"crash-image mode: the persister is parked, 2-4 unsafe batches pile up, one persister round is stopped after its in-memory merge is built, 1-2 batches are written into that window, the round is stopped again at a drawn point after its bolt commit, the index directory is copied there and the copy must open as a prefix state >= the batches whose persisted callback had fired, accept a write and reopen (non-trivial there = a batch landed inside the window); " +
 		"non-trivial = the child died by SIGKILL and (p < lastSubmit or the kill point lies in persist/merge/purge); distinct = hash of (config, workload, crash plan)")
 	ev.Assume("a killed process keeps its page cache: loss of unsynced root.bolt pages (power loss) is not emulated; garbage is injected only into files no committed snapshot names")
 	exhaustive := thorough()
@@ -398,7 +411,15 @@ func TestC03Crash(t *testing.T) {
 				}
 			}
 		}
-		tbl, dur, err := c03CountTable(cfg, batches)
+		// in half of the workloads persister and merger wait inside 1-4 drawn windows for the
+		// writer's next batch, so that batches are introduced in the middle of persists and
+		// in-memory merges - and the process is killed in the middle of that
+		var wait []string
+		if rapid.Bool().Draw(t, "waitWindows") {
+			wait = rapid.SliceOfNDistinct(rapid.SampledFrom(RendezvousPoints), 1, 4, rapid.ID[string]).Draw(t, "wait")
+			sort.Strings(wait)
+		}
+		tbl, dur, err := c03CountTable(cfg, batches, wait)
 		if err != nil {
 			t.Fatalf("harness: %v", err)
 		}
@@ -408,11 +429,11 @@ func TestC03Crash(t *testing.T) {
 		if exhaustive {
 			for _, p := range points {
 				for k := 1; k <= tbl[p]; k++ {
-					plans = append(plans, c03Crash{Kind: "point", Point: p, K: k, Garbage: garbageKinds[(k+len(p))%4]})
+					plans = append(plans, c03Crash{Kind: "point", Point: p, K: k, Garbage: garbageKinds[(k+len(p))%4], Wait: wait})
 				}
 			}
 			for i := 0; i < 6; i++ {
-				plans = append(plans, c03Crash{Kind: "wallclock", AfterUS: 1 + rapid.IntRange(0, int(dur.Microseconds())).Draw(t, "killAfter"), Garbage: garbageKinds[i%4]})
+				plans = append(plans, c03Crash{Kind: "wallclock", AfterUS: 1 + rapid.IntRange(0, int(dur.Microseconds())).Draw(t, "killAfter"), Garbage: garbageKinds[i%4], Wait: wait})
 			}
 			plans = append(plans, c03Crash{Kind: "none", Garbage: "leave"})
 		} else {
@@ -421,9 +442,9 @@ func TestC03Crash(t *testing.T) {
 				switch c := rapid.IntRange(0, 9).Draw(t, "crashKind"); {
 				case c < 7 && len(points) > 0:
 					p := rapid.SampledFrom(points).Draw(t, "point")
-					plans = append(plans, c03Crash{Kind: "point", Point: p, K: rapid.IntRange(1, tbl[p]).Draw(t, "k"), Garbage: g})
+					plans = append(plans, c03Crash{Kind: "point", Point: p, K: rapid.IntRange(1, tbl[p]).Draw(t, "k"), Garbage: g, Wait: wait})
 				case c < 9:
-					plans = append(plans, c03Crash{Kind: "wallclock", AfterUS: 1 + rapid.IntRange(0, int(dur.Microseconds())).Draw(t, "killAfter"), Garbage: g})
+					plans = append(plans, c03Crash{Kind: "wallclock", AfterUS: 1 + rapid.IntRange(0, int(dur.Microseconds())).Draw(t, "killAfter"), Garbage: g, Wait: wait})
 				default:
 					plans = append(plans, c03Crash{Kind: "none", Garbage: "leave"})
 				}
@@ -452,6 +473,9 @@ func TestC03Crash(t *testing.T) {
 				cl = append(cl, "unsafe-batch")
 			} else {
 				cl = append(cl, "safe-batch")
+			}
+			if len(crash.Wait) > 0 {
+				cl = append(cl, "background-waits-for-writer")
 			}
 			canon := map[string]interface{}{"cfg": cfg, "batches": batches, "crash": crash}
 			sample := map[string]interface{}{"cfg": cfg, "nbatches": len(batches), "crash": crash, "killed": killed, "recovered_prefix": p, "last_submitted": lastSubmit, "points_in_table": len(points)}
